@@ -2,6 +2,7 @@ package main
 
 import (
 	"fmt"
+	"regexp"
 	"sort"
 	"strings"
 
@@ -64,6 +65,35 @@ func returnShapesO(f *ssa.Function, opts exprOpts) map[string][]string {
 // lists the acceptable shapes for the slot (all observed shapes must be in
 // the list and at least one must be observed).
 func (c *Ctx) checkShapes(rule, fnKey string, f *ssa.Function, got map[string][]string, want map[string][]string) {
+	if f != nil && !shapesSatisfy(got, want) {
+		// second view: helpers the table does not name are seen through (a part of the function moved into a helper is not a change of what it computes)
+		var named []string
+		for _, ws := range want {
+			named = append(named, ws...)
+		}
+		tableText := strings.Join(named, " ;; ")
+		o := shapeOpts
+		o.inline = func(g *ssa.Function) bool {
+			if !helperInlinableLoops(g) || g == f {
+				return false
+			}
+			n := relName(g.String())
+			return !strings.Contains(tableText, n+"(") && !strings.Contains(tableText, abbr(n)+"(")
+		}
+		merged := map[string][]string{}
+		for k, v := range got {
+			merged[k] = v
+		}
+		for _, alt := range []map[string][]string{returnShapesO(f, o), abbrMap(returnShapesO(f, o))} {
+			for slot, ws := range want {
+				one := map[string][]string{slot: ws}
+				if !shapesSatisfy(merged, one) && shapesSatisfy(alt, one) {
+					merged[slot] = alt[slot]
+				}
+			}
+		}
+		got = merged
+	}
 	keys := make([]string, 0, len(want))
 	for k := range want {
 		keys = append(keys, k)
@@ -72,11 +102,12 @@ func (c *Ctx) checkShapes(rule, fnKey string, f *ssa.Function, got map[string][]
 	for _, slot := range keys {
 		// alternatives merged by control flow (phi(a | b)) denote the same set as a and b separately
 		var g, w []string
+		// address-of markers are dropped on both sides: a field reached through &x and through x is the same location
 		for _, x := range got[slot] {
-			g = append(g, expandAlts(x)...)
+			g = append(g, expandAlts(looseForm(x))...)
 		}
 		for _, x := range want[slot] {
-			w = append(w, expandAlts(x)...)
+			w = append(w, expandAlts(looseForm(x))...)
 		}
 		g, w = uniqSorted(g), uniqSorted(w)
 		ok := len(g) > 0
@@ -201,4 +232,38 @@ func abbrMap(m map[string][]string) map[string][]string {
 		out[k] = abbrAll(v)
 	}
 	return out
+}
+
+// shapesSatisfy: every wanted slot is observed and all observed alternatives are allowed.
+func shapesSatisfy(got, want map[string][]string) bool {
+	for slot, ws := range want {
+		var g, w []string
+		for _, x := range got[slot] {
+			g = append(g, expandAlts(looseForm(x))...)
+		}
+		for _, x := range ws {
+			w = append(w, expandAlts(looseForm(x))...)
+		}
+		if len(g) == 0 {
+			return false
+		}
+		allowed := map[string]bool{}
+		for _, x := range w {
+			allowed[x] = true
+		}
+		for _, x := range g {
+			if !allowed[x] {
+				return false
+			}
+		}
+	}
+	return true
+}
+
+var cellParamRe = regexp.MustCompile(`cell\((p\d+)\)`)
+
+// looseForm drops distinctions that do not change what a location or value is:
+// address-of markers and the local cell a by-value parameter is spilled into.
+func looseForm(x string) string {
+	return cellParamRe.ReplaceAllString(strings.ReplaceAll(x, "&", ""), "$1")
 }
